@@ -207,6 +207,32 @@ CHECKS = {
        "re-derivation), not proved of the float code; write_csv/write_json rows are compared with the lists.",
   technique="Lean 4 proof by decide over regenerated tables + assembly-stage theorems + specification predicates on real annotations of all models",
   ref="9/C11"),
+ "C15": dict(
+  text="Lean theorems (Props.C15) about models of both reader generations on what the independent emitter (the C09 writer model) writes "
+       "for an arbitrary atom table: line_level / document_level (reader v1 and the table-level reader extract exactly the fields of every "
+       "row from the PDB text — MODEL/TER/ENDMDL/END, readlines — and from the mmCIF token table); v1_filters_identity and v2_grouping; MAIN "
+       "readers_agree_pdb, readers_agree_cif, formats_agree: for every non-empty table within PDB limits that is a single conformer "
+       "(decidable predicate singleConformer: no altloc, one model, no atom name twice in a residue, no two atoms within the clash "
+       "distance, rows of a residue adjacent, one name per (chain, number, icode)) the residue-level reader does not raise and the four "
+       "readings are permutations of one another with every identity once (same chain, number, insertion code, name, atom names, "
+       "coordinates); readers_report_the_table; connectivity_same (the two is_connected are one function = both atoms present and O3'-P "
+       "below 12/5 A; segments equal, and equal up to chain order over either reader's listing); chi_magnitude_agree (same four atoms for "
+       "the standard names; equal magnitude whenever neither degenerate guard fires; |torsion2| = |torsion1| over R). The unconditional "
+       "statements are proved FALSE of the code with witnesses (superposed atoms without altloc flag, non-adjacent rows, empty file; "
+       "collinear chi atoms and differing guards) and the proved parts carry the _partial names. Bridges: both thresholds 1.5*1.6 = 12/5 on "
+       "O3'/P, group-by columns, accessor columns, chi atom lists and residue classes, regenerated from tertiary.py / tertiary_v2.py on "
+       "every run.",
+  note="Modelled, not verified: the mmcif tokenizer (token table taken from it; the harness emitter is validated by re-reading), pandas "
+       "groupby (one group per key, sorted, NaN last — checked as correspondence incl. the text order of auth_seq_id) and dtype coercions, "
+       "float()/to_numeric of decimal text (exact decimals in the model; bit-equality of the two readers' floats is checked on every "
+       "coordinate), numpy norm / arctan2 (agreement outside a 1e-6 band). Reader v1's one-letter residue name is modelled for "
+       "one-character and D-prefixed names only. Reader identity of v1 = Residue3D.auth fields. Corpus structures are judged on the "
+       "tables re-emitted by the independent emitter (as the quantifier says); the original files are run too and disagreements there are "
+       "logged as observations.",
+  technique="Lean 4 proof (text-level inverses of both readers on the emitter's output, group-by vs run-grouping on contiguous tables, "
+            "permutation of residue lists, sort uniqueness for segments, torsion sign relation) + differential run of both real readers "
+            "on generated tables in both formats (O3'-P straddling 2.4 A, glycosidic atoms) and on the single-conformer corpus",
+  ref="9/C15, 14.8"),
 }
 
 NOT_YET = {}
